@@ -429,6 +429,7 @@ package flyt
 
 // Any-style adapters, option form and builder form: identical contracts (C17)
 //@ func WithPrepFuncAny$1$1(ctx, shared) (r, err)
+//@   freevars (fn *func(context.Context, *SharedStore) (any, error))
 //@   requires *fn != nil
 //@   havoc user
 //@   ghost calls int = 0; uv any = nil; ue error = nil
@@ -437,6 +438,7 @@ package flyt
 //@     effect calls = 1; uv = v; ue = e
 //@   ensures [C17] calls == 1 && (ue != nil ==> err == ue) && (ue == nil ==> err == nil && r == Result{uv, nil})
 //@ func (*NodeBuilder).WithPrepFuncAny$1(ctx, shared) (r, err)
+//@   freevars (fn *func(context.Context, *SharedStore) (any, error))
 //@   requires *fn != nil
 //@   havoc user
 //@   ghost calls int = 0; uv any = nil; ue error = nil
@@ -445,6 +447,7 @@ package flyt
 //@     effect calls = 1; uv = v; ue = e
 //@   ensures [C17] calls == 1 && (ue != nil ==> err == ue) && (ue == nil ==> err == nil && r == Result{uv, nil})
 //@ func WithExecFuncAny$1$1(ctx, prepResult) (r, err)
+//@   freevars (fn *func(context.Context, any) (any, error))
 //@   requires *fn != nil
 //@   havoc user
 //@   ghost calls int = 0; uv any = nil; ue error = nil
@@ -453,6 +456,7 @@ package flyt
 //@     effect calls = 1; uv = v; ue = e
 //@   ensures [C17] calls == 1 && (ue != nil ==> err == ue) && (ue == nil ==> err == nil && r == Result{uv, nil})
 //@ func (*NodeBuilder).WithExecFuncAny$1(ctx, prepResult) (r, err)
+//@   freevars (fn *func(context.Context, any) (any, error))
 //@   requires *fn != nil
 //@   havoc user
 //@   ghost calls int = 0; uv any = nil; ue error = nil
@@ -461,6 +465,7 @@ package flyt
 //@     effect calls = 1; uv = v; ue = e
 //@   ensures [C17] calls == 1 && (ue != nil ==> err == ue) && (ue == nil ==> err == nil && r == Result{uv, nil})
 //@ func (*BatchNodeBuilder).WithExecFuncAny$1(ctx, prepResult) (r, err)
+//@   freevars (fn *func(context.Context, any) (any, error))
 //@   requires *fn != nil
 //@   havoc user
 //@   ghost calls int = 0; uv any = nil; ue error = nil
@@ -471,6 +476,7 @@ package flyt
 // An Any-style post observes the payload: the value, or the error result itself when exec produced an error result.
 //@ spec func anyView(r Result) any = r.err != nil ? box(r, Result) : r.value
 //@ func WithPostFuncAny$1$1(ctx, shared, prepResult, execResult) (a, err)
+//@   freevars (fn *func(context.Context, *SharedStore, any, any) (Action, error))
 //@   requires *fn != nil
 //@   havoc user
 //@   ghost calls int = 0; ua Action = ""; ue error = nil
@@ -480,6 +486,7 @@ package flyt
 //@     effect calls = 1; ua = act; ue = e
 //@   ensures [C17] calls == 1 && a == ua && err == ue
 //@ func (*NodeBuilder).WithPostFuncAny$1(ctx, shared, prepResult, execResult) (a, err)
+//@   freevars (fn *func(context.Context, *SharedStore, any, any) (Action, error))
 //@   requires *fn != nil
 //@   havoc user
 //@   ghost calls int = 0; ua Action = ""; ue error = nil
@@ -988,12 +995,13 @@ package flyt
 //@     effect nAdd++
 //@   on send field WorkerPool.tasks(v)
 //@     requires [C12] nAdd == 1 && nSend == 0
-//@     requires [C12] isClosure(v, "(*WorkerPool).Submit$1") && *binding(v, "(*WorkerPool).Submit$1", 1) == task && *binding(v, "(*WorkerPool).Submit$1", 0) == p
+//@     requires [C12] isClosure(v, "(*WorkerPool).Submit$1") && *binding(v, "(*WorkerPool).Submit$1", task) == task && *binding(v, "(*WorkerPool).Submit$1", p) == p
 //@     effect nSend++
 //@   ensures [C12] nAdd == 1 && nSend == 1
 //@   ensures [C08,C12] spawned == 0 && callbacks == old(callbacks)
 
 //@ func (*WorkerPool).Submit$1() ()
+//@   freevars (p **WorkerPool, task *func())
 //@   requires *p != nil && *task != nil
 //@   havoc user
 //@   ghost nCall int = 0; nDone int = 0
@@ -1021,6 +1029,7 @@ package flyt
 // One pooled task: settles exactly its own slot; executes its item at most once, and not at all once the
 // stop flag is set (read under the mutex) or the context is cancelled.
 //@ func runBatchConcurrent$1() ()
+//@   freevars (mu *sync.Mutex, shouldStop *bool, errorHandling *string, results *[]Result, idx *int, ctx *context.Context, node *Node, itm *Result)
 //@   requires *node != nil && *ctx != nil && 0 <= *idx && *idx < len(*results)
 //@   guarded-cell shouldStop by mu
 //@   havoc user
@@ -1049,10 +1058,10 @@ package flyt
 //@     effect pool = p
 //@   on call (*WorkerPool).Submit(p, task)
 //@     requires [C06,C07] p == pool && !waited && 0 <= i && i < len(items) && isClosure(task, "runBatchConcurrent$1")
-//@     requires [C06,C07] *binding(task, "runBatchConcurrent$1", 4) == i && *binding(task, "runBatchConcurrent$1", 7) == items[i] && *binding(task, "runBatchConcurrent$1", 3) == results
-//@     requires [C06,C07] binding(task, "runBatchConcurrent$1", 4) != binding(task, "runBatchConcurrent$1", 1) && fresh(binding(task, "runBatchConcurrent$1", 4)) && fresh(binding(task, "runBatchConcurrent$1", 7))
-//@     requires [C09] binding(task, "runBatchConcurrent$1", 0) == alloc(sync.Mutex, 1) && binding(task, "runBatchConcurrent$1", 1) == alloc(bool, 1) && *binding(task, "runBatchConcurrent$1", 2) == errorHandling
-//@     requires [C11] *binding(task, "runBatchConcurrent$1", 5) == ctx && *binding(task, "runBatchConcurrent$1", 6) == node
+//@     requires [C06,C07] *binding(task, "runBatchConcurrent$1", idx) == i && *binding(task, "runBatchConcurrent$1", itm) == items[i] && *binding(task, "runBatchConcurrent$1", results) == results
+//@     requires [C06,C07] binding(task, "runBatchConcurrent$1", idx) != binding(task, "runBatchConcurrent$1", shouldStop) && fresh(binding(task, "runBatchConcurrent$1", idx)) && fresh(binding(task, "runBatchConcurrent$1", itm))
+//@     requires [C09] binding(task, "runBatchConcurrent$1", mu) == alloc(sync.Mutex, 1) && binding(task, "runBatchConcurrent$1", shouldStop) == alloc(bool, 1) && *binding(task, "runBatchConcurrent$1", errorHandling) == errorHandling
+//@     requires [C11] *binding(task, "runBatchConcurrent$1", ctx) == ctx && *binding(task, "runBatchConcurrent$1", node) == node
 //@     effect i = i
 //@   on call (*WorkerPool).Wait(p)
 //@     requires [C06,C07,C09,C11] p == pool && i == len(items) && !waited
